@@ -38,9 +38,11 @@ def _float_problem(job):
     deg = job["deg"]
     W = np.vander(x, deg + 1, increasing=True)
     p_true = rng.uniform(-1, 1, deg + 1)
-    sig = rng.uniform(0.2, 0.6, n)
+    unit = 10.0 ** job.get("unit_exp", 0)     # the same problem with y expressed in another unit (small absolute covariances)
+    p_true = p_true * unit
+    sig = rng.uniform(0.2, 0.6, n) * unit
     rho = rng.uniform(0.0, 0.6)
-    s_sh = rng.uniform(0.1, 0.4)
+    s_sh = rng.uniform(0.1, 0.4) * unit
     V = np.diag(sig ** 2) + s_sh ** 2 * (np.full((n, n), rho) + np.eye(n) * (1 - rho))
     d = W @ p_true + np.linalg.cholesky(V) @ rng.normal(size=n)
     names = ["c%d" % k for k in range(deg + 1)]
@@ -56,12 +58,12 @@ def _float_problem(job):
     rows, rvals, rcov = [], [], []
     if job["con"]:
         j = int(rng.choice([k for k in range(deg + 1) if k not in fixed]))
-        unc = float(rng.uniform(0.2, 0.5))
+        unc = float(rng.uniform(0.2, 0.5)) * unit
         val = float(p_true[j] + 0.3 * unc)
         fit.add_parameter_constraint(names[j], val, unc)
         rows, rvals, rcov = [j], [val], [unc ** 2]
-    fit.set_all_parameter_values([float(v) for v in (p_true + rng.uniform(-0.5, 0.5, deg + 1)) if True] if not fixed else
-                                 [float(p_true[k]) if k in fixed else float(p_true[k] + rng.uniform(-0.5, 0.5)) for k in range(deg + 1)])
+    fit.set_all_parameter_values([float(v) for v in (p_true + unit * rng.uniform(-0.5, 0.5, deg + 1)) if True] if not fixed else
+                                 [float(p_true[k]) if k in fixed else float(p_true[k] + unit * rng.uniform(-0.5, 0.5)) for k in range(deg + 1)])
     fit.do_fit()
     free = [k for k in range(deg + 1) if k not in fixed]
     Vi = np.linalg.inv(V)
@@ -79,7 +81,7 @@ def _float_problem(job):
     pv = np.asarray(fit.parameter_values)[free]
     sd = np.sqrt(np.diag(cov))
     issues = []
-    if np.any(np.abs(pv - sol) > 0.02 * sd + 1e-7):
+    if np.any(np.abs(pv - sol) > 0.02 * sd + 1e-7 * unit):
         issues.append(dict(kind="violation", step=0, kf=None, signature="GLS (float problems): optimum differs from the closed form [%s]" % job["backend"],
                            detail=dict(job=job, expected=sol.tolist(), actual=pv.tolist(), sigma=sd.tolist())))
     else:
@@ -112,7 +114,8 @@ def run(tier, seed, faults=(), prop="C05", what=("gls",)):
     cm.report_issues(rep, "GenScenario", jobs, res, "grid scenarios")
     evals = len(jobs)
     if prop == "C05":
-        fj = [dict(seed=seed * 1000 + k, deg=1 + k % 2, backend="iminuit" if k % 4 else "scipy", fix=(k % 3 == 0), con=(k % 5 == 0), steps=[])
+        fj = [dict(seed=seed * 1000 + k, deg=1 + k % 2, backend="iminuit" if k % 4 else "scipy", fix=(k % 3 == 0), con=(k % 5 == 0),
+                   unit_exp=(-5 if (k % 4 and k % 7 == 1) else 0), steps=[])
               for k in range(160 if tier == "quick" else 1500)]
         res = replay_parallel(fj, _float_problem, chunk=5)
         cm.report_issues(rep, "float", fj, res, "random correlated problems (float reference)")
